@@ -5,16 +5,19 @@
      the numstat loop of get_git_diff_stats, and the glue of stats_for_commit_stats
      (ignore filter, sort_unstable + dedup of the added lines, merge short cut).
 
-   Arithmetic.  stats.rs uses saturating_sub where it says so, but every accumulation is a
-   plain `+=` / `+` / `.sum::<u32>()` on u32.  Such an addition panics on overflow in a build
-   with overflow checks (debug, which is what the harness and the test binary are) and wraps in
-   a release build.  Both behaviours are modelled: every function takes an [ovf] mode and
-   [uadd] is the only place where the mode matters.  sat_add is defined for completeness (the
-   design expected saturating additions); stats.rs has none.
+   Arithmetic.  The prompt counters, the per-tool ai_additions and the numstat totals are
+   accumulated with saturating_add, the cap uses saturating_sub; what is still a plain `+` /
+   `+= 1` on u32 (the accepted-line counters and ai_additions = mixed + accepted) panics on
+   overflow in a build with overflow checks (debug, which is what the harness and the test
+   binary are) and wraps in a release build.  Both behaviours are modelled: every function takes
+   an [ovf] mode and [uadd] is the only place where the mode matters (C19_never_panics shows that
+   no such addition overflows when the diff fits in a u32).
 
-   Maps.  HashMap / BTreeMap values are association lists used as finite maps (lookup = first
-   match, update in place or append); the iteration order of a BTreeMap only shows in the order
-   of the JSON object members, which the check canonicalises by sorting.
+   Maps.  HashMap / BTreeMap / HashSet values are association lists / lists used as finite maps
+   and sets (lookup = first match, update in place or append).  The iteration order of the
+   BTreeMap tool_model_breakdown matters in one place, the tool-by-tool cap of mixed_additions:
+   there the list is first sorted by key (String order = lexicographic on code points); elsewhere
+   it only shows in the order of the JSON object members, which the check canonicalises.
 
    Not modelled: time_waiting_for_ai (chrono timestamp arithmetic, not part of C19). *)
 From Verif Require Import Base.Str.
@@ -102,37 +105,65 @@ Fixpoint partition_point (p : N -> bool) (l : list N) : N :=
 (* slice::binary_search(x).is_ok() on a sorted slice = membership *)
 Definition bsearch_ok (x : N) (l : list N) : bool := existsb (N.eqb x) l.
 
-Definition overlap_len (r : range) (added : list N) : N :=
+(* &added[i..j] *)
+Definition slice (i j : N) (l : list N) : list N := firstn (N.to_nat (j - i)) (skipn (N.to_nat i) l).
+
+(* line_range_overlap: the lines of the sorted added_lines that fall into the range *)
+Definition line_range_overlap (r : range) (added : list N) : list N :=
   match r with
-  | Single l => if bsearch_ok l added then 1 else 0
+  | Single l => if bsearch_ok l added then [l] else []
   | Range s e =>
       let start_idx := partition_point (fun x => x <? s) added in
       let end_idx := partition_point (fun x => x <=? e) added in
-      as_u32 (sat_sub end_idx start_idx)
+      slice start_idx (N.max end_idx start_idx) added
   end.
 
-(* ---------- accepted_lines_from_attestations ---------- *)
-(* entry.line_ranges.iter().map(overlap).sum::<u32>() *)
-Definition entry_accepted (m : ovf) (added : list N) (e : entry) : sres N :=
-  fold_res (fun acc r => uadd m acc (overlap_len r added)) (e_ranges e) 0.
+(* line_range_overlap_len (kept for the unit tests): .len() as u32 *)
+Definition overlap_len (r : range) (added : list N) : N :=
+  as_u32 (N.of_nat (length (line_range_overlap r added))).
 
-Definition entry_step (m : ovf) (prompts : list (str * prompt)) (added : list N)
-    (st : N * list (str * N)) (e : entry) : sres (N * list (str * N)) :=
-  sbind (entry_accepted m added e) (fun a =>
-    if a =? 0 then SOk st
+(* ---------- accepted_lines_from_attestations ---------- *)
+(* HashSet::insert returns true for a new line, then accepted += 1;  state = (counted, accepted) *)
+Definition count_line (m : ovf) (st : list N * N) (x : N) : sres (list N * N) :=
+  if existsb (N.eqb x) (fst st) then SOk st
+  else sbind (uadd m (snd st) 1) (fun a => SOk (x :: fst st, a)).
+
+Definition count_range (m : ovf) (added : list N) (st : list N * N) (r : range) : sres (list N * N) :=
+  fold_res (count_line m) (line_range_overlap r added) st.
+
+(* the two loops over entry.line_ranges and the lines of each overlap, from accepted = 0 *)
+Definition entry_accepted (m : ovf) (added : list N) (counted : list N) (e : entry) : sres (list N * N) :=
+  fold_res (count_range m added) (e_ranges e) (counted, 0).
+
+(* state = (total_ai_accepted, per_tool_model, counted_by_file); [counted] is a mutable borrow
+   of the file's set inside counted_by_file, so every insertion is an update of the map *)
+Definition astate := (N * list (str * N) * list (str * list N))%type.
+
+Definition entry_step (m : ovf) (prompts : list (str * prompt)) (path : str) (added : list N)
+    (st : astate) (e : entry) : sres astate :=
+  let '(total, per, cm) := st in
+  let counted := match lookup path cm with Some c => c | None => [] end in
+  sbind (entry_accepted m added counted e) (fun ca =>
+  sbind (map_upd [] path (fun _ => SOk (fst ca)) cm) (fun cm' =>
+    let a := snd ca in
+    if a =? 0 then SOk (total, per, cm')
     else
-      sbind (uadd m (fst st) a) (fun total' =>
+      sbind (uadd m total a) (fun total' =>
         match lookup (e_hash e) prompts with
         | Some p =>
-            sbind (map_upd 0 (tool_key p) (fun v => uadd m v a) (snd st)) (fun per' => SOk (total', per'))
-        | None => SOk (total', snd st)
-        end)).
+            sbind (map_upd 0 (tool_key p) (fun v => uadd m v a) per) (fun per' => SOk (total', per', cm'))
+        | None => SOk (total', per, cm')
+        end))).
 
 Definition file_step (m : ovf) (prompts : list (str * prompt)) (added : list (str * list N))
-    (st : N * list (str * N)) (fa : fatt) : sres (N * list (str * N)) :=
+    (st : astate) (fa : fatt) : sres astate :=
   match lookup (f_path fa) added with
   | None => SOk st
-  | Some ls => fold_res (entry_step m prompts ls) (f_entries fa) st
+  | Some ls =>
+      (* counted_by_file.entry(path).or_default() *)
+      let '(total, per, cm) := st in
+      sbind (map_upd [] (f_path fa) (fun c => SOk c) cm) (fun cm0 =>
+      fold_res (entry_step m prompts (f_path fa) ls) (f_entries fa) (total, per, cm0))
   end.
 
 Definition accepted_from_attestations (m : ovf) (n : option note) (added : list (str * list N))
@@ -140,27 +171,27 @@ Definition accepted_from_attestations (m : ovf) (n : option note) (added : list 
   if is_merge then SOk (0, [])
   else match n with
        | None => SOk (0, [])
-       | Some n => fold_res (file_step m (n_prompts n) added) (n_atts n) (0, [])
+       | Some n =>
+           sbind (fold_res (file_step m (n_prompts n) added) (n_atts n) (0, [], []))
+             (fun st => SOk (fst (fst st), snd (fst st)))
        end.
 
 (* ---------- stats_from_authorship_log ---------- *)
 (* the body of the loop over log.metadata.prompts.values() on the tool entry *)
-Definition tool_add_prompt (m : ovf) (p : prompt) (t : tool_stats) : sres tool_stats :=
-  sbind (uadd m (t_total_add t) (p_total_add p)) (fun a =>
-  sbind (uadd m (t_total_del t) (p_total_del p)) (fun d =>
-  sbind (uadd m (t_mixed t) (p_overriden p)) (fun x =>
-  SOk (mkTool (t_ai_additions t) x (t_accepted t) a d)))).
+Definition tool_add_prompt (p : prompt) (t : tool_stats) : tool_stats :=
+  mkTool (t_ai_additions t) (sat_add (t_mixed t) (p_overriden p)) (t_accepted t)
+         (sat_add (t_total_add t) (p_total_add p)) (sat_add (t_total_del t) (p_total_del p)).
 
 (* the loop over log.metadata.prompts.values(); state = (total_add, total_del, mixed, tools) *)
-Definition prompt_step (m : ovf) (st : N * N * N * list (str * tool_stats)) (hp : str * prompt)
+Definition prompt_step (st : N * N * N * list (str * tool_stats)) (hp : str * prompt)
     : sres (N * N * N * list (str * tool_stats)) :=
   let '(ta, td, mx, tools) := st in
   let p := snd hp in
-  sbind (uadd m ta (p_total_add p)) (fun ta' =>
-  sbind (uadd m td (p_total_del p)) (fun td' =>
-  sbind (uadd m mx (p_overriden p)) (fun mx' =>
-  sbind (map_upd tool_default (tool_key p) (tool_add_prompt m p) tools) (fun tools' =>
-  SOk (ta', td', mx', tools'))))).
+  sbind (map_upd tool_default (tool_key p) (fun t => SOk (tool_add_prompt p t)) tools) (fun tools' =>
+  SOk (sat_add ta (p_total_add p), sat_add td (p_total_del p), sat_add mx (p_overriden p), tools')).
+
+Definition set_mixed (x : N) (t : tool_stats) : tool_stats :=
+  mkTool (t_ai_additions t) x (t_accepted t) (t_total_add t) (t_total_del t).
 
 Definition set_accepted (acc : N) (t : tool_stats) : tool_stats :=
   mkTool (t_ai_additions t) (t_mixed t) acc (t_total_add t) (t_total_del t).
@@ -168,13 +199,39 @@ Definition set_accepted (acc : N) (t : tool_stats) : tool_stats :=
 Definition set_ai (a : N) (t : tool_stats) : tool_stats :=
   mkTool a (t_mixed t) (t_accepted t) (t_total_add t) (t_total_del t).
 
+(* String order: lexicographic on the UTF-8 bytes = on the code points *)
+Fixpoint str_leb (a b : str) : bool :=
+  match a, b with
+  | [], _ => true
+  | _ :: _, [] => false
+  | x :: a', y :: b' => if x <? y then true else if y <? x then false else str_leb a' b'
+  end.
+
+(* BTreeMap iteration order *)
+Fixpoint insert_tool (kt : str * tool_stats) (l : list (str * tool_stats)) : list (str * tool_stats) :=
+  match l with
+  | [] => [kt]
+  | kt' :: l' => if str_leb (fst kt) (fst kt') then kt :: l else kt' :: insert_tool kt l'
+  end.
+Definition sort_tools (l : list (str * tool_stats)) : list (str * tool_stats) := fold_right insert_tool [] l.
+
+(* the cap of the total applied tool by tool:
+   tool.mixed = min(tool.mixed, remaining); remaining -= tool.mixed *)
+Fixpoint cap_tools (remaining : N) (ts : list (str * tool_stats)) : list (str * tool_stats) :=
+  match ts with
+  | [] => []
+  | kt :: ts' =>
+      let x := N.min (t_mixed (snd kt)) remaining in
+      (fst kt, set_mixed x (snd kt)) :: cap_tools (remaining - x) ts'
+  end.
+
 (* tool_stats.ai_accepted = *accepted, for (tool_model, accepted) in ai_accepted_by_tool *)
 Definition accepted_step (ts : list (str * tool_stats)) (ka : str * N) : sres (list (str * tool_stats)) :=
   map_upd tool_default (fst ka) (fun t => SOk (set_accepted (snd ka) t)) ts.
 
-(* tool_stats.ai_additions = tool_stats.ai_accepted + tool_stats.mixed_additions *)
-Definition tool_finish (m : ovf) (kt : str * tool_stats) : sres (str * tool_stats) :=
-  sbind (uadd m (t_accepted (snd kt)) (t_mixed (snd kt))) (fun a => SOk (fst kt, set_ai a (snd kt))).
+(* tool_stats.ai_additions = tool_stats.ai_accepted.saturating_add(tool_stats.mixed_additions) *)
+Definition tool_finish (kt : str * tool_stats) : str * tool_stats :=
+  (fst kt, set_ai (sat_add (t_accepted (snd kt)) (t_mixed (snd kt))) (snd kt)).
 
 Definition note_atts (n : option note) : list fatt := match n with Some n => n_atts n | None => [] end.
 Definition note_prompts (n : option note) : list (str * prompt) :=
@@ -182,17 +239,18 @@ Definition note_prompts (n : option note) : list (str * prompt) :=
 
 Definition stats_from_log (m : ovf) (n : option note) (git_added git_deleted ai_accepted : N)
     (by_tool : list (str * N)) : sres stats :=
-  sbind (fold_res (prompt_step m) (note_prompts n) (0, 0, 0, [])) (fun st =>
+  sbind (fold_res prompt_step (note_prompts n) (0, 0, 0, [])) (fun st =>
   let '(ta, td, mx, tools) := st in
-  (* cap of the total mixed additions *)
+  (* cap of the total mixed additions, then of the breakdown *)
   let max_mixed := sat_sub git_added ai_accepted in
   let mixed := if max_mixed <? mx then max_mixed else mx in
+  let tools0 := cap_tools mixed (sort_tools tools) in
   (* tool-level accepted counts *)
-  sbind (fold_res accepted_step by_tool tools) (fun tools1 =>
+  sbind (fold_res accepted_step by_tool tools0) (fun tools1 =>
   sbind (uadd m mixed ai_accepted) (fun ai =>
-  sbind (map_res (tool_finish m) tools1) (fun tools2 =>
+  let tools2 := map tool_finish tools1 in
   let human := sat_sub git_added ai_accepted in
-  SOk (mkStats human mixed ai ai_accepted ta td git_deleted git_added tools2))))).
+  SOk (mkStats human mixed ai ai_accepted ta td git_deleted git_added tools2)))).
 
 (* ---------- stats_for_commit_stats: the glue ---------- *)
 (* lines.sort_unstable(); lines.dedup();  -- the result is the strictly increasing list of the
@@ -227,11 +285,10 @@ Definition numstat_line (m : ovf) (ignored : str -> bool) (st : N * N) (line : s
     | p0 :: p1 :: p2 :: _ =>
         if ignored p2 then SOk st
         else
-          sbind (match parse_u32 p0 with Some a => uadd m (fst st) a | None => SOk (fst st) end)
-            (fun added' =>
-          sbind (if str_eqb p1 [c_dash] then SOk (snd st)
-                 else match parse_u32 p1 with Some d => uadd m (snd st) d | None => SOk (snd st) end)
-            (fun deleted' => SOk (added', deleted')))
+          let added' := match parse_u32 p0 with Some a => sat_add (fst st) a | None => fst st end in
+          let deleted' := if str_eqb p1 [c_dash] then snd st
+                          else match parse_u32 p1 with Some d => sat_add (snd st) d | None => snd st end in
+          SOk (added', deleted')
     | _ => SOk st
     end.
 
@@ -303,18 +360,31 @@ Definition added_count (ignored : str -> bool) (raw : list (str * list N)) : N :
   fold_right (fun kv acc => if ignored (fst kv) then acc
                             else N.of_nat (length (nodup N.eq_dec (snd kv))) + acc) 0 raw.
 
-(* | note AI lines  /\  lines added by the commit |, over the non-ignored files *)
-Definition inter_count (ignored : str -> bool) (n : option note) (raw : list (str * list N)) : N :=
-  match n with
-  | None => 0
-  | Some n =>
-      fold_right (fun fa acc =>
-          if ignored (f_path fa) then acc
-          else match lookup (f_path fa) raw with
-               | Some ls => N.of_nat (length (filter (ai_line (f_entries fa)) (nodup N.eq_dec ls))) + acc
-               | None => acc
-               end) 0 (n_atts n)
+(* line x of file p is a line added by the commit (in a non-ignored file) that the note
+   attributes to AI: the set whose cardinality ai_accepted must be *)
+Definition attributed (ignored : str -> bool) (n : option note) (raw : list (str * list N))
+    (p : str) (x : N) : Prop :=
+  ignored p = false /\
+  exists ls, lookup p raw = Some ls /\ In x ls /\
+  exists fa, In fa (note_atts n) /\ f_path fa = p /\ ai_line (f_entries fa) x = true.
+
+(* the same cardinality, computed (for the cross-check of the oracle of the check) *)
+Fixpoint str_dedup (l : list str) : list str :=
+  match l with
+  | [] => []
+  | x :: l' => x :: filter (fun y => negb (str_eqb x y)) (str_dedup l')
   end.
+
+Definition entries_of (p : str) (atts : list fatt) : list entry :=
+  flat_map f_entries (filter (fun fa => str_eqb (f_path fa) p) atts).
+
+Definition inter_count (ignored : str -> bool) (n : option note) (raw : list (str * list N)) : N :=
+  fold_right (fun p acc =>
+      if ignored p then acc
+      else match lookup p raw with
+           | Some ls => N.of_nat (length (filter (ai_line (entries_of p (note_atts n))) (nodup N.eq_dec ls))) + acc
+           | None => acc
+           end) 0 (str_dedup (map f_path (note_atts n))).
 
 Definition sum_tools (f : tool_stats -> N) (ts : list (str * tool_stats)) : N :=
   fold_right (fun kt acc => f (snd kt) + acc) 0 ts.
@@ -325,8 +395,8 @@ Definition sum_overriden (n : option note) : N :=
   | Some n => fold_right (fun hp acc => p_overriden (snd hp) + acc) 0 (n_prompts n)
   end.
 
-(* Known class C19-K1: the cap of the total mixed additions fires (the per-tool
-   mixed_additions are not capped) *)
+(* the cap of the total mixed additions fires (the former known class C19-K1: the per-tool
+   mixed_additions were not capped; they are now, see cap_tools) *)
 Definition Known_C19 (n : option note) (git_added accepted : N) : bool :=
   sat_sub git_added accepted <? sum_overriden n.
 
